@@ -100,6 +100,7 @@ let mode = ref Os
 let pm_area = ref (-1)
 let pm_thread = ref (-1)
 let warmed = ref false
+let history : load_cfg list ref = ref []
 let max_numnodes () = let m = ref 64 in while !m < !os_maxnodes do m := 2 * !m done; !m
 
 let parse_info toks =
@@ -149,9 +150,23 @@ let () =
     (match toks with
      | [] -> ()
      | "echo" :: _ -> print_endline l
-     | "new" :: _ -> topo := None; mode := Os
+     | "new" :: _ -> topo := None; mode := Os; history := []
      | "destroy" :: _ -> topo := None
-     | "I" :: rest -> topo := Some (parse_info rest); print_endline l
+     | ["#cfg"; _; nonthis_normal; flag; nonthis_env; env] ->
+       (* configuration of the NEXT load of this handle: a normally given non-this-system backend?, the
+          IS_THISSYSTEM flag, an env-forced non-this-system backend?, HWLOC_THISSYSTEM *)
+       let bk = (if nonthis_normal = "1" then [{ bk_envvar_forced = false; bk_is_thissystem = Z0 }] else [{ bk_envvar_forced = false; bk_is_thissystem = z_of_int (-1) }])
+                @ (if nonthis_env = "1" then [{ bk_envvar_forced = true; bk_is_thissystem = Z0 }] else []) in
+       history := !history @ [{ lc_backends = bk; lc_flag = (flag = "1"); lc_env = (if env = "-" then None else Some (z_of_int (int_of_c env))) }]
+     | "load" :: "rc=-1" :: _ -> print_endline l
+     | "I" :: rest ->
+       (* the sets come from the C side; whether the topology is this system is the MODEL's answer for the
+          handle's whole load history (when the script declares it) *)
+       let t = parse_info rest in
+       let t = if !history = [] then t else { t with t_thissystem = thissystem_after !history } in
+       topo := Some t;
+       print_endline (Stdlib.String.concat " " (Stdlib.List.map (fun f ->
+         if Stdlib.String.length f > 5 && Stdlib.String.sub f 0 5 = "this=" then (if t.t_thissystem then "this=1" else "this=0") else f) toks))
      | ["mode"; "hooks"; hex] -> mode := Hooks (int_of_string ("0x" ^ hex))
      | ["mode"; "os"] -> mode := Os;
        if not !warmed then begin
